@@ -475,6 +475,7 @@ pub fn on_pause_end() {
     let mut by_ref: HashMap<usize, u64> = HashMap::with_capacity(live.len());
     let vo = cfg!(feature = "f_vo");
     let mut remset_verified = 0u64;
+    let mut los_checked = 0u64;
     for id in live.iter() {
         let Some(o) = sh.objs.get(id) else {
             violation("C01", "harness:live-id-unknown", format!("live id {} has no shadow record", id));
@@ -482,7 +483,15 @@ pub fn on_pause_end() {
         };
         let why = if pre.remset_only.contains(id) { "remset-only" } else if pre.s0.contains(id) || !pre.valid { "reachable" } else { "retained" };
         let prop = if pre.remset_only.contains(id) { "C05" } else if why == "retained" && sh.fin_registered.contains_key(id) { "C06" } else { "C01" };
-        if verify_object(sh, o, why, prop, pre.valid && info.nursery) {
+        let ok = verify_object(sh, o, why, prop, pre.valid && info.nursery);
+        if o.sem == SEM_LOS && pre.valid {
+            los_checked += 1;
+            if !ok && !world::readable(start_of(o.addr), 8) || (!ok && unsafe { read_hdr(start_of(o.addr)) }.id != o.id) {
+                // a marked (reachable) large object was swept / its pages were released or reused
+                violation("C36", format!("los:reachable-large-object-swept:{}", if info.nursery { "nursery-gc" } else { "full-gc" }), format!("large object id {} at {:#x} (size {}, survived {} pauses) was reachable in this collection but its memory is gone or reused", o.id, o.addr, o.size, o.survived));
+            }
+        }
+        if ok {
             verified += 1;
             if pre.remset_only.contains(id) {
                 remset_verified += 1;
@@ -623,6 +632,14 @@ pub fn on_pause_end() {
     with_report("C07", |r| {
         r.count("objects_enumerated", enumerated);
     });
+    if los_checked > 0 {
+        with_report("C36", |r| {
+            r.evaluations += los_checked;
+            r.count("gcsim_reachable_large_objects_checked_after_gc", los_checked);
+            r.count(if info.nursery { "gcsim_nursery_pauses_with_large_objects" } else { "gcsim_full_pauses_with_large_objects" }, 1);
+            r.key(mix(0xC36, mix(info.nursery as u64, los_checked.next_power_of_two())));
+        });
+    }
     let _ = cfg;
 }
 
